@@ -13,7 +13,7 @@ TRUSTED = [
 
 def run(rep, tier, build, replay=None):
     rng = random.Random(common.seed() * 7919 + 7)
-    n = 14 if tier == 'quick' else 200
+    n = 14 if tier == 'quick' else 500
     cases = []
     for i in range(n):
         u = gendoc.gen_universe(rng, size=2)
@@ -149,7 +149,7 @@ def content_sx(c):
 
 
 def project_correspondence(rep, rng, tier):
-    n = 150 if tier == 'quick' else 2500
+    n = 150 if tier == 'quick' else 8000
     trees = [gen_tree(rng, rng.choice([1, 2, 3])) for _ in range(n)]
     nsh = common.NPROC
     outs = common.run_impl_parallel('run_project.py', [{'trees': trees[i::nsh]} for i in range(nsh)])
